@@ -1,6 +1,6 @@
 (* C18: one invocation per rank, results gathered in rank order, exactly one reply. *)
 From Coq Require Import ZArith String List Bool Lia.
-From EL Require Import Base.Dec Base.PyLib Base.Tac Model.Worker Proofs.DictFacts Gen.WorkerParallel Gen.SharedPath Gen.CacheCmd.
+From EL Require Import Base.Dec Base.PyLib Base.Tac Model.Worker Proofs.DictFacts Gen.WorkerParallel Gen.SharedPath Gen.CacheCmd Gen.CacheParallel Gen.CacheBackend.
 Import ListNotations.
 Local Open Scope string_scope.
 Local Open Scope list_scope.
@@ -110,3 +110,79 @@ Proof.
     cbn [Nat.eqb replies_of]. cbn [List.app]. apply IH. intros r Hr. apply Hl. right. exact Hr. }
   rewrite E; [reflexivity|]. intros r Hr. apply in_seq in Hr. lia.
 Qed.
+
+(* ---- file mode: backend/cache_parallel.py and cache/backend.py:backend_execute_task_in_file ---- *)
+Lemma file_rank_ok apply bcast gather loaded (b s : bool) d v g :
+  bcast (if b then loaded else VNone) = Ok d ->
+  apply VNone d = Ok v ->
+  gather v = Ok g ->
+  file_rank apply bcast gather loaded (VBool b) (VBool s)
+  = Ok (VTuple [VList (if b then [if s then g else v] else [])]).
+Proof.
+  intros Hb Ha Hg. unfold file_rank.
+  destruct b; cbn; rewrite Hb; cbn; rewrite Ha; cbn; destruct s; cbn; rewrite ?Hg; reflexivity.
+Qed.
+
+Lemma file_rank_raises apply bcast gather loaded (b s : bool) d e :
+  bcast (if b then loaded else VNone) = Ok d ->
+  apply VNone d = Err e ->
+  file_rank apply bcast gather loaded (VBool b) (VBool s) = Err e.
+Proof.
+  intros Hb Ha. unfold file_rank. destruct b; cbn; rewrite Hb; cbn; rewrite Ha; reflexivity.
+Qed.
+
+Section FilePar.
+  Variable n : nat.
+  Variable app : nat -> pyval -> res pyval.
+
+  (* n >= 2 ranks: every rank calls the function once on the dictionary rank 0 loaded; rank 0
+     hands exactly one value to backend_write_file: the list of all return values in rank
+     order; no other rank writes *)
+  Theorem file_par_call loaded (out : nat -> pyval) :
+    2 <= n ->
+    (forall r, r < n -> app r loaded = Ok (out r)) ->
+    file_par file_rank n app loaded
+    = Ok (List.map (fun r => VTuple [VList (if Nat.eqb r 0 then [VList (List.map out (ranks n))] else [])]) (ranks n)).
+  Proof.
+    intros Hn H. unfold file_par. apply mapM_pure. intros r Hr.
+    assert (Hrn : r < n) by (unfold ranks in Hr; apply in_seq in Hr; lia).
+    assert (Houts : mapM (fun q => app q loaded) (ranks n) = Ok (List.map out (ranks n))).
+    { apply mapM_pure. intros q Hq. apply H. unfold ranks in Hq. apply in_seq in Hq. lia. }
+    rewrite (file_rank_ok _ _ _ _ (Nat.eqb r 0) (Nat.ltb 1 n) loaded (out r)
+               (if Nat.eqb r 0 then VList (List.map out (ranks n)) else VNone)).
+    - assert (E : Nat.ltb 1 n = true) by (apply Nat.ltb_lt; lia). rewrite E.
+      destruct (Nat.eqb r 0); reflexivity.
+    - destruct (Nat.eqb r 0); reflexivity.
+    - apply H. exact Hrn.
+    - rewrite Houts. reflexivity.
+  Qed.
+End FilePar.
+
+(* a single rank (mpiexec -n 1 never happens, but Get_size() = 1 is handled): the bare value *)
+Theorem file_par_single app loaded v :
+  app 0 loaded = Ok v ->
+  file_par file_rank 1 app loaded = Ok [VTuple [VList [v]]].
+Proof.
+  intros H. unfold file_par, ranks. cbn [List.seq mapM].
+  rewrite (file_rank_ok _ _ _ _ true false loaded v (VList [v])); cbn; try reflexivity; try exact H.
+  rewrite H. reflexivity.
+Qed.
+
+(* the function raises on rank 0: nothing is handed to backend_write_file (no result file) *)
+Theorem file_par_raises n app loaded e :
+  1 <= n ->
+  app 0 loaded = Err e ->
+  file_par file_rank n app loaded = Err e.
+Proof.
+  intros Hn H. unfold file_par, ranks. destruct n as [|m]; [lia|]. cbn [List.seq mapM].
+  rewrite (file_rank_raises _ _ _ _ true _ loaded e); [reflexivity|reflexivity|exact H].
+Qed.
+
+(* the serial file worker hands exactly its function's value to backend_write_file, once *)
+Theorem file_serial_ok apply loaded v :
+  apply VNone loaded = Ok v -> file_serial apply loaded = Ok (VTuple [VList [v]]).
+Proof. intros H. unfold file_serial. cbn. rewrite H. reflexivity. Qed.
+
+Theorem file_serial_raises apply loaded e :
+  apply VNone loaded = Err e -> file_serial apply loaded = Err e.
+Proof. intros H. unfold file_serial. cbn. rewrite H. reflexivity. Qed.
